@@ -55,7 +55,10 @@ func (f *clientOnResponseProcessor) Process(ctx context.Context, rpcMessage mess
 				response := gettyRemotingClient.GetMessageFuture(msgID)
 				if response != nil {
 					response.Response = mergedResult.Msgs[i]
-					response.Done <- struct{}{}
+					select {
+					case response.Done <- struct{}{}:
+					default:
+					}
 					gettyRemotingClient.RemoveMessageFuture(msgID)
 				}
 			}
